@@ -233,6 +233,12 @@ def case_model(p, ctx):
         if kind == "otgp":
             ctx.cls("otgp_learn_failed_" + type(exc).__name__)
             return
+        if kind == "moe":
+            # a K-means cluster that is empty or too small for its local model (found by the thorough tier: SciPy's
+            # Rbf divides by the number of input dimensions of an empty sample): a precondition of the learning set,
+            # the property says nothing about learning failures
+            ctx.cls("moe_learn_failed_" + type(exc).__name__)
+            return
         raise
     d, q = p["d_in"], p["d_out"]
     yscale = float(np.abs(y).max())
